@@ -217,6 +217,17 @@ def tc_check(repo, res, fn_q, enum, accepted, allow, extra_ok_adaptors=(), rule=
     envs = A.collect_envs(fn)
     accepted = helper_closure(repo, fn, set(accepted) | {fn.name})
     variants = enum_variants(repo, enum)
+    # a match that only LOOKS at the node (reads a field, computes a flag) beside the match that does the visiting is not a traversal:
+    # when some match of the function contains traversal calls, only such matches are held to the rule
+    def _visits(m):
+        for n in A.walk(m):
+            if callee_name(n) in accepted:
+                return True
+        return False
+
+    visiting = [m for m in matches if _visits(m)]
+    if visiting and len(visiting) < len(matches):
+        matches = visiting
     # a pass visits the node it is given: nothing leaves the function before the dispatch on the node (a "nothing to do" fast path
     # in front of the match skips, with the rewriting, every side effect the arms have -- bookkeeping, error detection -- for the whole sub-tree)
     first = min(matches, key=lambda m: (m["l"], m["c"]))
